@@ -2,6 +2,8 @@
 Service.build_update / check_convert_value against an exact-rational reference (vt/ref/numgrid.py)."""
 from __future__ import annotations
 
+import itertools
+
 import math
 from fractions import Fraction
 
@@ -497,6 +499,40 @@ def case_threads(p):
     return []
 
 
+CHAR_TYPE_B = "0000FE02-0000-1000-8000-0026BB765291"
+CHAR_TYPE_C = "0000FE03-0000-1000-8000-0026BB765291"
+
+
+def case_multi(p):
+    """One build_update call for several characteristics of a service (a thermostat's mode and target, a light's brightness and hue): every value
+    is prepared against ITS characteristic and attached to its instance id, in whatever order the caller's dict lists them and whatever the
+    order of the instance ids."""
+    from aiohomekit.model import Accessory
+    from aiohomekit.model.characteristics.characteristic import check_convert_value
+
+    serv = Accessory(12).add_service(SERV_TYPE)
+    chars = {}
+    for (ctype, iid), spec in zip(((CHAR_TYPE, p["iids"][0]), (CHAR_TYPE_B, p["iids"][1]), (CHAR_TYPE_C, p["iids"][2])), p["chars"]):
+        chars[ctype] = (serv.add_char(ctype, format=spec["fmt"], min_value=spec["lo"], max_value=spec["hi"], min_step=spec["st"], perms=["pr", "pw"], iid=iid), spec)
+    order = [list(chars)[i] for i in p["order"]]
+    payload = {ct: _materialise(chars[ct][1]["kind"], chars[ct][1]["v"]) for ct in order}
+    want = {}
+    for ct in order:
+        ch, spec = chars[ct]
+        r = _call(lambda ch=ch, spec=spec: check_convert_value(_materialise(spec["kind"], spec["v"]), ch))
+        if r[0] != "value":
+            return []  # (an input that is refused alone: not this case's business)
+        want[ch.iid] = r[1]
+    try:
+        res = serv.build_update(payload)
+    except Exception as e:  # noqa: BLE001
+        return [(f"build_update-of-several-characteristics-raises:{type(e).__name__}", {"order": p["order"], "iids": p["iids"], "err": str(e)[:160]})]
+    got = {iid: v for _, iid, v in res}
+    if len(res) != len(order) or {k: repr(v) for k, v in got.items()} != {k: repr(v) for k, v in want.items()}:
+        return [("build_update-of-several-characteristics-mixes-values-up", {"order": p["order"], "iids": p["iids"], "got": {str(k): repr(v) for k, v in got.items()}, "each_alone": {str(k): repr(v) for k, v in want.items()}})]
+    return []
+
+
 def case_numkind(p):
     """An integer-valued input is the same number whatever Python type carries it (bool, an IntEnum member, an int subclass, a Decimal)."""
     fmt, lo, hi, st, kind, v = p["fmt"], p["lo"], p["hi"], p["st"], p["kind"], p["v"]
@@ -507,7 +543,7 @@ def case_numkind(p):
     return viol
 
 
-CASES = {"validvalues": case_validvalues, "threads": case_threads, "context": case_context, "numkind": case_numkind, "numeric": case_numeric, "garbage": case_garbage, "bool": case_bool, "sequence": case_sequence}
+CASES = {"multi": case_multi, "validvalues": case_validvalues, "threads": case_threads, "context": case_context, "numkind": case_numkind, "numeric": case_numeric, "garbage": case_garbage, "bool": case_bool, "sequence": case_sequence}
 
 
 # ---------------------------------------------------------------- alphabets
@@ -715,7 +751,7 @@ def _work(item, seed, tier):
             acc.case(key=("seq", core.jsonable(p)), outcome=viol[0][0] if viol else "sequence:ok", sample={"case": "sequence", "params": p}, symbols=["family:sequence"])
             for sig, detail in viol:
                 acc.violation(sig, "sequence", p, detail)
-    elif family in ("context", "numkind", "validvalues", "threads"):
+    elif family in ("context", "numkind", "validvalues", "threads", "multi"):
         for p in item[1]:
             viol = CASES[family](p)
             acc.extra["thread_schedules"] += p.pop("_schedules", 0)
@@ -822,6 +858,15 @@ def run(ctx):
                 for cname in DEC_CONTEXTS:
                     cx.append({"fmt": fmt, "lo": lo, "hi": hi, "st": st, "kind": kind, "v": v, "context": cname})
     work += [("numkind", chunk) for chunk in _split(nk, 60)] + [("context", chunk) for chunk in _split(cx, 300)]
+    mu = []
+    specs = [dict(fmt="uint8", lo=0, hi=3, st=1, kind="int", v="1"), dict(fmt="float", lo=10, hi=38, st=0.1, kind="float", v="21.34"), dict(fmt="int", lo=-100, hi=100, st=5, kind="str", v="47"),
+             dict(fmt="uint32", lo=0, hi=U32, st=None, kind="int", v="4000000000"), dict(fmt="float", lo=0, hi=360, st=1, kind="float", v="359.6")]
+    for trio in itertools.permutations(range(len(specs)), 3):
+        for iids in ((10, 20, 30), (30, 20, 10), (20, 30, 10)):
+            for order in ((0, 1), (1, 0), (0, 1, 2), (2, 1, 0), (1, 2, 0)):
+                if not quick or (trio[0] < 2 and iids != (20, 30, 10)) or order == (2, 1, 0):
+                    mu.append({"chars": [specs[i] for i in trio], "iids": list(iids), "order": list(order)})
+    work += [("multi", chunk) for chunk in _split(mu, 60)]
     vv = []
     for fmt, lo, hi, st, valid, vrange in (("uint8", 0, 1, 1, [0, 1], None), ("uint8", 0, 2, 1, [0, 1, 2, 3], None), ("uint8", 0, 3, None, [0, 1, 3], None), ("int", -5, 5, 5, [-5, 0, 5], None),
                                            ("uint8", 0, 100, 1, [0, 50, 100], [0, 100]), ("float", 0, 10, 0.5, [0, 5, 10], None), ("uint32", 0, U32, 1, [0, 1, U32], None)):
